@@ -25,22 +25,35 @@ uint64_t __CPROVER_uninterpreted_input(uint64_t);
 #define INPUT(i) __CPROVER_uninterpreted_input(i)
 extern const GElement *g_input; extern uint64_t g_size, g_rows;
 #define CP1(i) if (n / 8 > (i)) { if (from_input) { __CPROVER_assert(base + (i) < g_rows * g_size, "read inside the declared input length"); dd[i].fe = INPUT(base + (i)); } else dd[i] = ss[i]; }
+#define CP1N(i) if (n / 8 > (i)) dd[i] = ss[i];   /* element beyond the per-copy input limit MAXIN: never from the input (asserted) */
 #define ZE1(i) if (n / 8 > (i)) dd[i].fe = 0;
 #define REP12(M) M(0) M(1) M(2) M(3) M(4) M(5) M(6) M(7) M(8) M(9) M(10) M(11)
 #define REP24(M) REP12(M) M(12) M(13) M(14) M(15) M(16) M(17) M(18) M(19) M(20) M(21) M(22) M(23)
+/* MAXIN = most elements one copy may take FROM THE INPUT.  Every INPUT(.) term is an uninterpreted-function application and the SAT
+ * encoding is quadratic in their number.  The two-row state is interleaved in groups of four ([A0-3|B0-3|A4-7|B4-7|capA|capB]), so a
+ * contiguous piece of one row is at most four elements there: with MAXIN 4 instead of 16 the all-lengths proof of the AVX-512 variant
+ * takes 4 min instead of 25 (13 M -> 2.8 M clauses).  A longer copy from the input fails the `vf_model_limit` assertion, which the
+ * driver reports as "undecided" (exit 2), not as a violation. */
 #ifdef VF_AVX512
 #define REPCP(M) REP12(M) M(12) M(13) M(14) M(15)
 #define MAXCP 128
+#define MAXIN 4
+#define REPIN(M) M(0) M(1) M(2) M(3)
+#define REPREST(M) M(4) M(5) M(6) M(7) M(8) M(9) M(10) M(11) M(12) M(13) M(14) M(15)
 #else
 #define REPCP(M) REP12(M)
 #define MAXCP 96
+#define MAXIN 12
+#define REPIN(M) REP12(M)
+#define REPREST(M)
 #endif
 /* typed element pointers (every argument in these functions is a GElement pointer): no byte-level reinterpretation */
 static void vf_memcpy(GElement *dd, const GElement *ss, size_t n)
 { __CPROVER_assert((n & 7) == 0 && n <= MAXCP, "vf_memcpy: whole elements, at most 12 (16 in the AVX-512 unit)");
   _Bool from_input = n > 0 && __CPROVER_same_object(ss, g_input); uint64_t base = 0;
   if (from_input) { __CPROVER_assert((__CPROVER_POINTER_OFFSET(ss) & 7) == 0, "element-aligned source"); base = (uint64_t)__CPROVER_POINTER_OFFSET(ss) / 8; }
-  REPCP(CP1) }
+  __CPROVER_assert(!from_input || n <= 8 * MAXIN, "vf_model_limit: one copy takes at most MAXIN elements from the input (12; 4 in the AVX-512 unit)");
+  REPIN(CP1) REPREST(CP1N) }
 static void vf_memset(GElement *dd, int c, size_t n)
 { __CPROVER_assert((n & 7) == 0 && n <= MAXCP && c == 0, "vf_memset: whole elements, zero fill, at most 12 (16)"); REPCP(ZE1) }
 
@@ -103,11 +116,20 @@ void hl_PoseidonGoldilocks_linear_hash_avx512(void)
 {
   uint64_t size; __CPROVER_assume(size <= MAXSIZE); uint64_t vf_insize = size; (void)vf_insize;
 #ifdef VF_PASSTHROUGH_ONLY
-  __CPROVER_assume(size <= CAPACITY);   /* quick-tier unit: the pass-through branch only (the all-lengths unit runs in the thorough tier) */
+  __CPROVER_assume(size <= CAPACITY);   /* quick-tier unit: lengths 0..4 only (the all-lengths unit runs in the thorough tier) */
 #endif
   GElement *input = (GElement *)__CPROVER_allocate(0, 0); GElement output[2 * CAPACITY];
   g_input = input; g_size = size; g_rows = 2; g_calls = 0; g_bad = 0;
+#ifdef VF_PASSTHROUGH_ONLY
+  /* the five lengths are presented as literals, one call each: with a symbolic `size <= 4` the symbolic executor cannot discard the
+   * sponge loop and the query carries its whole encoding (13 M clauses, 200-300 s, timed out under load); with a literal length the
+   * branch `size <= CAPACITY` is decided during symbolic execution.  Same input set: every length 0..4, every content of both rows. */
+  switch (size) { case 0: PoseidonGoldilocks_linear_hash_avx512(output, input, 0); break; case 1: PoseidonGoldilocks_linear_hash_avx512(output, input, 1); break;
+    case 2: PoseidonGoldilocks_linear_hash_avx512(output, input, 2); break; case 3: PoseidonGoldilocks_linear_hash_avx512(output, input, 3); break;
+    default: PoseidonGoldilocks_linear_hash_avx512(output, input, 4); break; }
+#else
   PoseidonGoldilocks_linear_hash_avx512(output, input, size);
+#endif
   __CPROVER_assert(!g_bad, "linear_hash_avx512.postcondition.1 (light): every permutation call absorbs the next block of BOTH rows, zero padded, with the right capacities");
   __CPROVER_assert(size <= CAPACITY ? g_calls == 0 : g_calls == (size + 7) / 8, "linear_hash_avx512.postcondition.2 (light): number of permutations");
   if (size > CAPACITY) { for (int k = 0; k < 8; k++) __CPROVER_assert(output[k].fe == g_prev[k], "linear_hash_avx512.postcondition.3 (light): digests = first four outputs of the last permutation, per row"); }
